@@ -190,6 +190,34 @@ def write_expected(root):
 
 # ---------------------------------------------------------------------------------------------
 
+BASELINE = "known/C08_array_nonfinite_baseline.txt"
+PER_SOURCE = ("array_branch_nonfinite", "coerce_1x1_nonfinite")
+
+def load_baseline(root):
+    p = os.path.join(root, BASELINE)
+    if not os.path.exists(p):
+        return None
+    return set(l.strip() for l in open(p, encoding="utf-8") if l.strip() and not l.startswith("#"))
+
+def per_source_classes(meta):
+    return sorted(k for k in meta.get("oracle_failures_per_class", {}) if k.split(":")[0] in PER_SOURCE and ":" in k)
+
+def write_baseline(root, metas):
+    """union of the committed baseline and the per-source classes of the given meta files"""
+    cur = load_baseline(root) or set()
+    for m in metas:
+        cur |= set(per_source_classes(json.load(open(m))))
+    p = os.path.join(root, BASELINE)
+    os.makedirs(os.path.dirname(p), exist_ok=True)
+    with open(p, "w", encoding="utf-8") as f:
+        f.write("# C08: the sources (function, function~wrapper of the dynamic forms, or expr:<formula>) whose array result reaches the\n"
+                "# UNGUARDED sinks of set_cells_with_result with a non-finite element ON THE UNCHANGED TREE (findings F09 / F09b).\n"
+                "# Generated by `python3 lib/c08.py --write-baseline <meta.json>...` from thorough + multi-seed quick sweeps and reviewed.\n"
+                "# A source that is not listed here is reported as a VIOLATION (a function newly producing inf/NaN element-wise).\n")
+        for k in sorted(cur):
+            f.write(k + "\n")
+    return p, len(cur)
+
 def run(cfg):
     root = cfg["root"]
     rc, log, meta = run_harness(cfg, "c08")
@@ -217,6 +245,36 @@ def run(cfg):
         idiff = [{"pattern": "*", "expected": "missing file " + EXPECTED, "actual": "run python3 lib/c08.py --write-inventory"}]
     if idiff:
         dis.append({"input": "inventory", "impl": idiff[:12], "model": "inventory_expected.json"})
+    # per-source classes of the unguarded array sinks: a source of the committed baseline is the known
+    # finding (F09 / F09b); a new source keeps its own class and is therefore reported as a VIOLATION
+    baseline = load_baseline(root)
+    if baseline is None:
+        dis.append({"input": "baseline", "impl": "missing " + BASELINE, "model": "python3 lib/c08.py --write-baseline cases/c08.meta.json"})
+        baseline = set()
+    failures, new_sources = [], set()
+    for f in meta.get("oracle_failures", []):
+        c = f.get("class", "")
+        base = c.split(":")[0]
+        if base in PER_SOURCE and ":" in c:
+            if c in baseline:
+                f = dict(f, **{"class": base, "source": c[len(base) + 1:]})
+            else:
+                new_sources.add(c)
+                f = dict(f, detail="NEW SOURCE of a non-finite number in an unguarded array sink (not in %s): %s" % (BASELINE, f.get("detail", "")))
+        failures.append(f)
+    # known sources first are not needed in bulk: keep at most 3 records per mapped class, all unmapped ones
+    kept, seen = [], {}
+    for f in sorted(failures, key=lambda f: (f["class"] in PER_SOURCE, len(json.dumps(f.get("input", {}).get("formula", ""))))):
+        n = seen.get(f["class"], 0)
+        if f["class"] in PER_SOURCE and n >= 3:
+            continue
+        seen[f["class"]] = n + 1
+        kept.append(f)
+    collapsed = {}
+    for k, n in meta.get("oracle_failures_per_class", {}).items():
+        kk = k.split(":")[0] if (k in baseline) else k
+        collapsed[kk] = collapsed.get(kk, 0) + n
+    sources_seen = per_source_classes(meta)
     thorough = cfg["tier"] == "thorough"
     return {
         "evaluations": n + meta.get("oracle_checked", 0),
@@ -225,16 +283,18 @@ def run(cfg):
                  "one fresh model per formula, every cell of the workbook scanned for a non-finite number after evaluate(). Plus 64 operator formulas on arrays/ranges (single + CSE), "
                  "%d typed texts through set_user_input, update_cell_with_number with 6 floats, 30 patched xlsx files. Non-trivial = formulas whose anchor holds a number/text/boolean (not an error)"
                  % (meta.get("functions", 0),
-                    "21 values" if thorough else "6 core values + 3 per function chosen from the seed",
+                    "24 values" if thorough else "10 core values (1E308, -1E308, 1E-308, 0, -0, empty, \"inf\", #NUM!, -1, 1) + 3 per function chosen from the seed",
                     "literal, cell, column range, row range, {v,v}, {v;v}, {v}" if thorough else "literal, cell, column range, {v,v}, {v}",
                     "single cell, CSE 2x2, dynamic *{1,1}, dynamic ^{1,2}" if thorough else "single cell, CSE 2x2, dynamic *{1,1}",
                     meta.get("distribution", {}).get("typed:set_user_input", 0))),
         "samples": meta.get("samples", []),
         "disagreements": dis, "n_disagreements": ndis + (1 if idiff else 0) + len(abandoned),
-        "oracle_failures": meta.get("oracle_failures", []),
+        "oracle_failures": kept,
         "exhaustive": not abandoned,
         "extra": {"input_distribution": meta.get("distribution", {}), "oracle_checked": meta.get("oracle_checked", 0),
-                  "oracle_failures_per_class": meta.get("oracle_failures_per_class", {}),
+                  "oracle_failures_per_class": collapsed,
+                  "array_sink_sources_seen": len(sources_seen), "array_sink_sources_in_baseline": len(baseline),
+                  "array_sink_new_sources": sorted(new_sources),
                   "functions": meta.get("functions", 0), "sweep_formulas": meta.get("sweep_formulas", 0),
                   "panics": meta.get("panics", {}), "skipped_timeouts": meta.get("skipped_timeouts", []),
                   "functions_with_nonfinite_per_class": meta.get("functions_with_nonfinite_per_class", {}),
@@ -251,6 +311,9 @@ if __name__ == "__main__":
     root = os.path.dirname(os.path.dirname(os.path.abspath(__file__)))
     if "--write-inventory" in sys.argv:
         print("wrote", write_expected(root))
+    elif "--write-baseline" in sys.argv:
+        metas = [a for a in sys.argv[1:] if a.endswith(".json")] or [os.path.join(root, "cases", "c08.meta.json")]
+        print("wrote %s (%d sources)" % write_baseline(root, metas))
     else:
         inv, sites = inventory(with_sites=True)
         print(json.dumps({"inventory": inv, "sites": sites}, indent=1, sort_keys=True))
